@@ -66,6 +66,20 @@ func main() {
 		lc.Tags = strings.Split(*tags, ",")
 	}
 
+	if *control == "list" {
+		for _, c := range pr.Controls {
+			kind := "negative"
+			if c.Positive {
+				kind = "positive"
+			}
+			rule := c.Rule
+			if rule == "" {
+				rule = "-"
+			}
+			fmt.Printf("%s %s %s %s\n", pr.ID, c.Name, kind, rule)
+		}
+		return
+	}
 	if *control != "" {
 		runControl(pr, *control, lc, *repo)
 		return
